@@ -260,6 +260,18 @@ def judge(case, irs, mr):
             if alts != exp:
                 return {'verdict': Verdict.VIOLATION, 'tags': tags,
                         'detail': f'{what}: {cls} pattern {p!r} lists {sorted(alts)} but the ISA configures {sorted(exp)}; ' + det}
+    # (iii-b) the scope each rule assigns is the scope of ITS class (a word list under the wrong scope name classifies wrongly)
+    vs_scopes = {'instruction': (g.get('instructions', {}).get('beginCaptures', {}).get('0', {}).get('name'), 'variable.function.instruction'),
+                 'macro': (g.get('macros', {}).get('beginCaptures', {}).get('0', {}).get('name'), 'variable.function.macro'),
+                 'register': (g.get('registers', {}).get('name'), 'variable.language.register'),
+                 'predefined': (g.get('compiler_labels', {}).get('name'), 'constant.language')}
+    for cls, (got_scope, want_scope) in vs_scopes.items():
+        if want[cls] and vs_pats[cls] is not None and got_scope != want_scope:
+            return {'verdict': Verdict.VIOLATION, 'tags': tags,
+                    'detail': f'vscode: the {cls} rule assigns the scope {got_scope!r}, expected {want_scope!r}; ' + det}
+    sb_reg_scope = (s.get('registers') or [{}])[0].get('scope')
+    if want['register'] and sb_pats['register'] is not None and sb_reg_scope is not None and 'register' not in str(sb_reg_scope):
+        return {'verdict': Verdict.VIOLATION, 'tags': tags, 'detail': f'sublime: the register rule assigns the scope {sb_reg_scope!r}; ' + det}
     # (iv) classification of probe identifiers, in the rule order of each grammar
     pr = probes(case)
     # the order in which each grammar lists its rules (of two rules that match at one place the first one listed wins)
